@@ -26,6 +26,7 @@ import PGProofs.Glue
 import PGProofs.MomentsThm
 import PGProofs.MemoThm
 import PGProofs.ShareThm
+import PGProofs.EpochKeyThm
 
 set_option linter.all false
 set_option pp.fieldNotation.generalized false
@@ -35,6 +36,24 @@ open PG
 
 /-- every answer of every history equals the cache-free specification -/
 theorem refinement : ∀ {E M : Type} [inst : BEq E] [LawfulBEq E] (compute : E → M) (s : Cache.State E M), Cache.Inv compute s → ∀ (ops : List (Cache.Op E)), (Cache.run compute s ops).2 = Cache.specRun compute s.epoch ops := @PG.Cache.C17_refinement
+
+/-- the CONCRETE cache key (what Epoch.__hash__ hashes): equal keys give the same table of sizes and rates to the transitions -/
+theorem epoch_key_sound : ∀ (I : Config.Input) {e₁ e₂ : Epoch}, EpochKey.key e₁ = EpochKey.key e₂ → EndToEnd.tableOfEpoch I e₁ = EndToEnd.tableOfEpoch I e₂ := @PG.EpochKey.key_sound_table
+
+/-- the cache model instantiated with concrete epoch objects: after any history every S read is the matrix of the current epoch object itself -/
+theorem epoch_key_cache : ∀ (I : Config.Input) (useCache : Bool) (e0 : Epoch) (ops : List (Cache.Op Epoch)), (Cache.run (fun k ↦ EndToEnd.tableOfEpoch I (EpochKey.ofKey k)) (Cache.State.init (EpochKey.key e0) useCache) (List.map EpochKey.liftOp ops)).2 = EpochKey.specAnswers (EndToEnd.tableOfEpoch I) e0 ops := @PG.EpochKey.cache_instantiated_table
+
+/-- between two epochs of one demography update_epoch drops S exactly if some size or rate differs -/
+theorem epoch_key_complete : ∀ (o : DemoOpts) (events : List Event) (count : ℕ) {e₁ e₂ : Epoch}, e₁ ∈ epochsUpTo o events count → e₂ ∈ epochsUpTo o events count → (EpochKey.updateDrops e₁ e₂ = true ↔ ∃ k, Epoch.value e₁ k ≠ Epoch.value e₂ k) := @PG.EpochKey.generated_updateDrops_iff
+
+/-- all epochs of one generator run list their keys in the same order (so equal content gives equal keys) -/
+theorem epoch_key_order : ∀ (o : DemoOpts) (events : List Event) (count : ℕ), ∀ e₁ ∈ epochsUpTo o events count, ∀ e₂ ∈ epochsUpTo o events count, List.map (fun x ↦ x.1) e₁.sizes = List.map (fun x ↦ x.1) e₂.sizes ∧ List.map (fun x ↦ x.1) e₁.mig = List.map (fun x ↦ x.1) e₂.mig := @PG.EpochKey.generated_same_key_order
+
+/-- start and end time do not enter the key (documented) -/
+theorem epoch_key_ignores_time : ∀ (e : Epoch) (s : ℚ) (t : Option ℚ), EpochKey.key { start := s, stop := t, sizes := e.sizes, mig := e.mig } = EpochKey.key e := @PG.EpochKey.key_ignores_time
+
+/-- hashing over combinations of sorted names (seeded twice independently): a reverse-direction rate change is not seen and the second read is stale -/
+theorem epoch_key_combinations : (Cache.run id (Cache.State.init (EpochKey.keyComb EpochKey.exA) true) (List.map EpochKey.liftOpComb [Cache.Op.getS, Cache.Op.updateEpoch EpochKey.exB, Cache.Op.getS])).1.computations = 2 ∧ (Cache.updateEpoch (Cache.getS id (Cache.State.init (EpochKey.keyComb EpochKey.exA) true)).1 (EpochKey.keyComb EpochKey.exB)).S = some (EpochKey.keyComb EpochKey.exA) ∧ (Cache.run id (Cache.State.init (EpochKey.key EpochKey.exA) true) (List.map EpochKey.liftOp [Cache.Op.getS, Cache.Op.updateEpoch EpochKey.exB, Cache.Op.getS])).2 = [some (EpochKey.key EpochKey.exA), none, some (EpochKey.key EpochKey.exB)] ∧ (Cache.run id (Cache.State.init (EpochKey.key EpochKey.exA) true) (List.map EpochKey.liftOp [Cache.Op.getS, Cache.Op.updateEpoch EpochKey.exB, Cache.Op.getS])).1.computations = 3 ∧ EpochKey.key EpochKey.exA ≠ EpochKey.key EpochKey.exB := @PG.EpochKey.combinations_stale_history
 
 /-- the i-th read returns compute(epoch after the first i operations) -/
 theorem read_at : ∀ {E M : Type} [inst : BEq E] [LawfulBEq E] (compute : E → M) (s : Cache.State E M), Cache.Inv compute s → ∀ (ops : List (Cache.Op E)) (i : ℕ), ops[i]? = some Cache.Op.getS → (Cache.run compute s ops).2[i]? = some (some (compute (Cache.epochAfter s.epoch (List.take i ops)))) := @PG.Cache.C17_getS_at
@@ -102,6 +121,12 @@ theorem share_forgets_locus_defect : Share.eqKey Share.EqVariant.current Share.e
 end PG.C17
 
 #print axioms PG.C17.refinement
+#print axioms PG.C17.epoch_key_sound
+#print axioms PG.C17.epoch_key_cache
+#print axioms PG.C17.epoch_key_complete
+#print axioms PG.C17.epoch_key_order
+#print axioms PG.C17.epoch_key_ignores_time
+#print axioms PG.C17.epoch_key_combinations
 #print axioms PG.C17.read_at
 #print axioms PG.C17.invariant
 #print axioms PG.C17.cache_off
